@@ -56,7 +56,11 @@ func (f *If) Call(s *slip.Scope, args slip.List, depth int) (result slip.Object)
 	result = nil
 	d2 := depth + 1
 	pos := 0
-	test := slip.EvalArg(s, args, pos, d2) != nil
+	tv := primaryValue(slip.EvalArg(s, args, pos, d2))
+	if _, ok := tv.(slip.NonLocalExit); ok {
+		return tv
+	}
+	test := tv != nil
 	pos++
 	if test {
 		result = slip.EvalArg(s, args, pos, d2)
